@@ -20,7 +20,7 @@
     [..._src], [..._by] : PV.DispatchGen.  [gen_...] : PVgen.Gen_Disp*.  [reachable_src c s]: s is reached from the state the
     generated constructors build for a first round (any duplicate-free job order) by ANY finite sequence of events of [step_src]. *)
 Require Import List Arith Bool Permutation Sorted.
-From PV Require Import Dispatch DispatchProofs DispatchShapes DispatchGen DispatchGenProofs.
+From PV Require Import Dispatch DispatchProofs DispatchShapes DispatchGen DispatchGenProofs DispatchGenBoss.
 From PVgen Require Import Gen_DispOrderWorker Gen_DispOrder Gen_DispCheckWorkers Gen_DispAutorange Gen_DispFillStack
                           Gen_DispMasterCtor Gen_DispMasterSwap Gen_DispMasterIsFinished Gen_DispWorkerCtor
                           Gen_DispWorkerIsFinished Gen_DispWorkerIsWorking Gen_DispReceiveOrder Gen_DispReportDone
@@ -283,3 +283,23 @@ Theorem map_broadcast_identical_source : forall c s, valid_cfg_src c = true -> r
             (forall j, ~ In j (alljobs s) -> m j = None).
 Proof. exact DispatchGenProofs.map_broadcast_identical_src. Qed.
 Print Assumptions map_broadcast_identical_source.
+
+(** * the worker pool for a boss on ANY rank (PV.Dispatch has the boss on rank 0, the documented usage; the interface takes any rank):
+    the pool the process of rank r builds from the generated description of _autorange_workers *)
+Theorem pool_any_boss_source : forall r c, r < np c ->
+  NoDup (pool_at_src r c) /\
+  (forall p, In p (pool_at_src r c) <-> p < np c /\ (ib c = true \/ p <> r)) /\
+  length (pool_at_src r c) = gen_autorange_nprocs (np c) (ib c) /\
+  (gen_autorange_throws (gen_autorange_nprocs (np c) (ib c)) = true <-> pool_at_src r c = nil).
+Proof. exact DispatchGenBoss.pool_any_boss. Qed.
+Print Assumptions pool_any_boss_source.
+
+Theorem pool_root_boss_source : forall c, pool_at_src 0 c = pool_src c /\ pool_src c = pool c.
+Proof. exact DispatchGenBoss.pool_root_boss. Qed.
+Print Assumptions pool_root_boss_source.
+
+(** non-vacuity: a dedicated boss on the last and on a middle rank of four; a working boss on the last rank of three *)
+Example pool_any_boss_examples :
+  pool_at_src 3 (mkcfg 4 false) = 0 :: 1 :: 2 :: nil /\ pool_at_src 1 (mkcfg 4 false) = 0 :: 2 :: 3 :: nil /\
+  pool_at_src 2 (mkcfg 3 true) = 0 :: 1 :: 2 :: nil.
+Proof. exact DispatchGenBoss.pool_last_rank_boss. Qed.
